@@ -1,6 +1,6 @@
 """C15 — only genuine, fresh acknowledgements change sender state."""
 from props import _hc
-from hc_oracles import twin_oracle, crash_oracle
+from hc_oracles import twin_oracle, crash_oracle, unsent_ack_oracle
 
 PROP = "C15"
 COQ_FILE = "props/C15.v"
@@ -19,4 +19,4 @@ def streams(seed, tier):
 
 
 def oracle(name, ops, out):
-    return _hc.run_oracles({"twin": [twin_oracle, crash_oracle]}, name, ops, out)
+    return _hc.run_oracles({"twin": [twin_oracle, crash_oracle], "hostile": [crash_oracle, unsent_ack_oracle]}, name, ops, out)
